@@ -180,7 +180,7 @@ func (in *inst) list(stmts []ast.Stmt, atStart bool) []ast.Stmt {
 		out = append(out, yieldStmt())
 		in.count++
 	}
-	for _, s := range stmts {
+	for i, s := range stmts {
 		in.stmt(s)
 		// the point right before a mutex acquisition is of a kind of its own (not in the
 		// access controllers: they are called back by the log with its lock held)
@@ -213,6 +213,13 @@ func (in *inst) list(stmts []ast.Stmt, atStart bool) []ast.Stmt {
 					in.count++
 				}
 			}
+		case *ast.IfStmt, *ast.ForStmt, *ast.RangeStmt, *ast.SwitchStmt, *ast.TypeSwitchStmt, *ast.SelectStmt:
+			// the path that falls through a compound statement (condition false, loop left,
+			// no case taken): what the condition read may be stale by the next statement
+			if i < len(stmts)-1 {
+				out = append(out, yieldStmt())
+				in.count++
+			}
 		}
 	}
 	return out
@@ -243,14 +250,18 @@ func (in *inst) stmt(s ast.Stmt) {
 	case *ast.BlockStmt:
 		in.block(x, false)
 	case *ast.IfStmt:
+		// a point between the evaluation of a condition and the branch taken on it
+		// (check-then-act without a lock, a wait entered on a condition that has changed)
 		in.exprs(x.Init, x.Cond)
-		in.block(x.Body, false)
-		if x.Else != nil {
+		in.block(x.Body, true)
+		if eb, ok := x.Else.(*ast.BlockStmt); ok {
+			in.block(eb, true)
+		} else if x.Else != nil {
 			in.stmt(x.Else)
 		}
 	case *ast.ForStmt:
 		in.exprs(x.Init, x.Cond, x.Post)
-		in.block(x.Body, false)
+		in.block(x.Body, x.Cond != nil)
 	case *ast.RangeStmt:
 		in.exprs(x.X)
 		in.block(x.Body, false)
@@ -262,7 +273,7 @@ func (in *inst) stmt(s ast.Stmt) {
 	case *ast.SelectStmt:
 		for _, c := range x.Body.List {
 			if cc, ok := c.(*ast.CommClause); ok {
-				cc.Body = in.list(cc.Body, false)
+				cc.Body = in.list(cc.Body, len(cc.Body) > 0)
 			}
 		}
 	case *ast.LabeledStmt:
@@ -291,7 +302,7 @@ func (in *inst) stmt(s ast.Stmt) {
 func (in *inst) cases(b *ast.BlockStmt) {
 	for _, c := range b.List {
 		if cc, ok := c.(*ast.CaseClause); ok {
-			cc.Body = in.list(cc.Body, false)
+			cc.Body = in.list(cc.Body, len(cc.Body) > 0)
 		}
 	}
 }
